@@ -697,9 +697,11 @@ pub fn encode_with_fixed_block_size<T: Source>(
     stream
         .stream_info_mut()
         .set_md5_digest(&context.md5_digest());
+    // The count of the samples actually consumed; `src.len_hint()` may include
+    // samples that were read from the source before encoding started.
     stream
         .stream_info_mut()
-        .set_total_samples(src.len_hint().unwrap_or_else(|| context.total_samples()));
+        .set_total_samples(context.total_samples());
     Ok(stream)
 }
 
